@@ -26,7 +26,7 @@ from simkit.world import World, quiet
 class IterSim(Sim):
     PROP = "C05"
     NAME = "itersim"
-    QUICK_RUNS = 30000
+    QUICK_RUNS = 80000
     THOROUGH_RUNS = 600000
     MAX_EVENTS = 40
     RUN_TIMEOUT = 20
